@@ -36,8 +36,17 @@ def tree_case(rng, tier, algo=None):
         n = min(n, 300 if tier == "quick" else 600)
     c = gen.algo_case(rng, algo, tier, n=n, T=n, fams=FAMS, dim=int(rng.integers(1, 4)))
     c["params"] = tree_params(rng, algo)
+    if algo == "T_HOO" and rng.random() < 0.15:
+        # resonant settings: nu*sqrt(n) is an exact power of 1/rho, so the published depth bound is exactly an integer
+        # and '<=' vs '<' (or a re-arranged formula) decide differently
+        b = int(rng.integers(1, 3))
+        a = int(rng.integers(-3, 3))
+        cexp = int(rng.integers(4, 6))  # n = 4^c in {256, 1024}
+        c["params"] = {"nu": 2.0 ** a, "rho": 2.0 ** -b}
+        c["n"] = c["T"] = n = min(4 ** cexp, 1024 if tier == "thorough" else 256)
+        c["resonant"] = True
     c["_cost"] = 3e-5 * n * n / 10 + 0.1
-    return c
+    return gen.add_midqueries(rng, c, 0.25)
 
 
 def wrapper_case(rng, tier, algo=None):
@@ -48,7 +57,7 @@ def wrapper_case(rng, tier, algo=None):
     # rhomax where the wrappers have a budget per learner (H >= 1) most of the time
     c["params"] = {"nu": float(10 ** rng.uniform(-1, 1)), "rhomax": float(rng.uniform(0.05, 0.97))}
     c["_cost"] = 1e-3 * n + 0.1
-    return c
+    return gen.add_midqueries(rng, c, 0.3)
 
 
 def monitors_for(case, with_tree=True):
